@@ -43,6 +43,7 @@ def class_ops(hist):
     ops = []
     for t in TOKENS:
         ops += [["add", t, False], ["add", t, True], ["remove", t], ["has", t]]
+    ops += [["remove", ""], ["has", ""]]          # the empty token: never a member, removing it changes nothing
     init = hist[0][1]
     if not (isinstance(init, str) and ("\n" in init or "\r" in init)):
         # HTML() tokens are not added onto a plain value whose tokens are separated by CR/LF: merging
